@@ -2,6 +2,8 @@
   C18 — an element's repr is the expression that rebuilds it.
 -/
 import StathamModel.Py.Repr
+import StathamModel.Py.Eval
+import StathamModel.Lemmas.EvalLeaf
 import StathamModel.Tie
 namespace Statham.C18
 open Statham
@@ -51,6 +53,51 @@ theorem prop_source_shown (k : Key) (e : PyExpr) :
     cases k.required <;> simp [hs, this]
   · have : k.src ≠ k.name := by simpa using hs
     cases k.required <;> simp [hs, this]
+
+/-! ### the repr of a leaf element evaluates back to the element (every keyword configuration of its class) -/
+
+/-- `String(...)`: all 2^8 combinations of passed / not passed keywords, every keyword value -/
+theorem C18_round_trip_string (d c : Option JVal) (e : Option (List JVal)) (f p : Option String) (mn mx : Option Num)
+    (ds : Option String) :
+    evalLeaf (reprExpr (Elem.leaf .string
+        { default := d, const := c, enum := e, format := f, pattern := p, minLength := mn, maxLength := mx, description := ds })) =
+      some (Elem.leaf .string
+        { default := d, const := c, enum := e, format := f, pattern := p, minLength := mn, maxLength := mx, description := ds }) := by
+  simp only [Elem.leaf, reprExpr, reprCore, reprList, reprOpt, reprKeyed, evalLeaf, leafClassOf]
+  rw [kwargs_string]
+
+/-- `Integer(...)` and `Number(...)` -/
+theorem C18_round_trip_numeric (cls : Cls) (hc : cls = .integer ∨ cls = .number) (d c : Option JVal) (e : Option (List JVal))
+    (a b x y m : Option Num) (ds : Option String) :
+    evalLeaf (reprExpr (Elem.leaf cls
+        { default := d, const := c, enum := e, minimum := a, maximum := b, exclusiveMinimum := x, exclusiveMaximum := y,
+          multipleOf := m, description := ds })) =
+      some (Elem.leaf cls
+        { default := d, const := c, enum := e, minimum := a, maximum := b, exclusiveMinimum := x, exclusiveMaximum := y,
+          multipleOf := m, description := ds }) := by
+  rcases hc with rfl | rfl <;>
+    (simp only [Elem.leaf, reprExpr, reprCore, reprList, reprOpt, reprKeyed, evalLeaf, leafClassOf]; rw [kwargs_numeric])
+
+/-- `Boolean(...)` and `Null(...)` -/
+theorem C18_round_trip_basic (cls : Cls) (hc : cls = .boolean ∨ cls = .null) (d c : Option JVal) (e : Option (List JVal))
+    (ds : Option String) :
+    evalLeaf (reprExpr (Elem.leaf cls { default := d, const := c, enum := e, description := ds })) =
+      some (Elem.leaf cls { default := d, const := c, enum := e, description := ds }) := by
+  rcases hc with rfl | rfl
+  · simp only [Elem.leaf, reprExpr, reprCore, reprList, reprOpt, reprKeyed, evalLeaf, leafClassOf]
+    rw [kwargs_basic Gen.sigBoolean rfl]
+  · simp only [Elem.leaf, reprExpr, reprCore, reprList, reprOpt, reprKeyed, evalLeaf, leafClassOf]
+    rw [kwargs_basic Gen.sigNull rfl]
+
+/-- a generic `Element(...)` without sub-elements: all 25 keyword slots (12 optional numbers / strings / literals, `required`,
+    the seven flags, empty `items` / `properties` / `patternProperties` / `dependencies`), every combination -/
+theorem C18_round_trip_element_leaf (d c : Option JVal) (e : Option (List JVal)) (tuple addI : Bool) (mnI mxI : Option Num)
+    (uniq : Bool) (a b x y m : Option Num) (f p : Option String) (mnL mxL : Option Num) (req : Option (List String))
+    (hp hpp addP : Bool) (mnP mxP : Option Num) (hd : Bool) (ds : Option String) :
+    evalLeaf (reprExpr (Elem.leaf .element (leafKw d c e tuple addI mnI mxI uniq a b x y m f p mnL mxL req hp hpp addP mnP mxP hd ds))) =
+      some (Elem.leaf .element (leafKw d c e tuple addI mnI mxI uniq a b x y m f p mnL mxL req hp hpp addP mnP mxP hd ds)) := by
+  simp only [Elem.leaf, reprExpr, reprCore, reprList, reprOpt, reprKeyed, evalLeaf, leafClassOf]
+  rw [kwargs_element]
 
 /-! ### evaluated in the kernel -/
 
